@@ -19,7 +19,8 @@ from rules.prefilter import r10_1
 from rules.utilfn import r03_7
 from rules.utilfn import r13_8
 from rules.utilfn import r10_8
-RULES = [('R04.5r', r04_5_reader), ('R05.8', r05_8), ('R05.7', r05_7), ('R03.6', r03_6), ('R02.1', r02_1), ('R02.2', r02_2), ('R01.1', r01_1), ('R01.5', r01_5), ('R01.6', r01_6), ('R04.5i', r04_5_iter), ('R04.5d', r04_5_dfa), ('R05.3', r05_3), ('R04.4', r04_4), ('R11.1', r11_1), ('R05.2', r05_2), ('R10.7', r10_7), ('R04.7', r04_7), ('R04.8', r04_8), ('R16.6', r16_6), ('R10.1', r10_1), ('R03.7', r03_7), ('R13.8', r13_8), ('R10.8', r10_8)]
+from rules.utilfn import r04_11
+RULES = [('R04.5r', r04_5_reader), ('R05.8', r05_8), ('R05.7', r05_7), ('R03.6', r03_6), ('R02.1', r02_1), ('R02.2', r02_2), ('R01.1', r01_1), ('R01.5', r01_5), ('R01.6', r01_6), ('R04.5i', r04_5_iter), ('R04.5d', r04_5_dfa), ('R05.3', r05_3), ('R04.4', r04_4), ('R11.1', r11_1), ('R05.2', r05_2), ('R10.7', r10_7), ('R04.7', r04_7), ('R04.8', r04_8), ('R16.6', r16_6), ('R10.1', r10_1), ('R03.7', r03_7), ('R13.8', r13_8), ('R10.8', r10_8), ('R04.11', r04_11)]
 EXPLANATION = """R02.1 standard semantics force earliest: earliest = is_standard() || get_earliest(), plumbed consistently into the five driver calls.
 R02.2 in the BFS of fill_failure_transitions the computed failure link f (start at states[id].fail, follow failure links while
 follow_transition(f, byte) == FAIL, then take the transition) is stored to states[t.next].fail and followed by copy_matches(f, t.next)
